@@ -206,8 +206,9 @@ VARIABLES prog,    \* the program (fixed once generated)
           ret,     \* return value of the last expand() call
           out,     \* tokens delivered to the consumer by next()
           status,  \* "gen" | "gen1" | "run" | "ok" | "error"
-          gen      \* -simulate only: number of program items still to generate
-vars == <<prog, mode, inp, inpd, mem, stack, ret, out, status, gen>>
+          gen,     \* -simulate only: number of program items still to generate
+          acts     \* history: names of the actions taken so far (vacuity guard, emitted with each case)
+vars == <<prog, mode, inp, inpd, mem, stack, ret, out, status, gen, acts>>
 
 PT(t) == [k |-> t.k, s |-> t.s, sp |-> t.sp, h |-> FALSE]
 PTok4(k, s, sp) == [k |-> k, s |-> s, sp |-> sp, h |-> FALSE]
@@ -607,8 +608,11 @@ FuncFinish ==
           /\ stack' = Front(stack)
           /\ UNCHANGED <<ret, out, status>> /\ Static
 
-Step == NextFetch \/ NextAfter \/ PeekPushBack \/ ExpandLookup \/ ExpandPeek \/ ExpandPush
-        \/ FuncStart \/ FuncTok \/ FuncAft \/ FuncEndArg \/ FuncFinish
+A(name, act) == act /\ acts' = acts \cup {name}
+Step == \/ A("NextFetch", NextFetch) \/ A("NextAfter", NextAfter) \/ A("PeekPushBack", PeekPushBack)
+        \/ A("ExpandLookup", ExpandLookup) \/ A("ExpandPeek", ExpandPeek) \/ A("ExpandPush", ExpandPush)
+        \/ A("FuncStart", FuncStart) \/ A("FuncTok", FuncTok) \/ A("FuncAft", FuncAft)
+        \/ A("FuncEndArg", FuncEndArg) \/ A("FuncFinish", FuncFinish)
 
 (* ======================================================================== *)
 (* Part 3: program spaces, initial states, invariants, emission.              *)
@@ -727,7 +731,9 @@ ProgSpace ==
          <<Def("F", TRUE, <<"a">>, <<"a">>)>> \o Text(<<"F", "~(", "~1", "~,", "~)">>),
          <<Def("F", TRUE, <<"y">>, <<"y">>), Def("ID", TRUE, <<"x">>, <<"x">>)>> \o Text(<<"ID", "~(", "~F", "~)", "1">>),
          <<Def("T", FALSE, <<>>, <<"int">>)>> \o Text(<<"T", "a", ";", "T", "b", ";">>),
-         <<Def("A", TRUE, <<"x">>, <<"x">>), Def("B", FALSE, <<>>, <<"A">>)>> \o Text(<<"B">>) \o <<Undef("B")>> }
+         <<Def("A", TRUE, <<"x">>, <<"x">>), Def("B", FALSE, <<>>, <<"A">>)>> \o Text(<<"B">>) \o <<Undef("B")>>,
+         <<Def("G", TRUE, <<"x">>, <<"x", ")">>), Def("Q", FALSE, <<>>, <<"g", "~(", "G">>), Def("g", TRUE, <<"a">>, <<"[", "a", "]">>)>>
+            \o Text(<<"Q", "(", "~1", "~)", "2", ")">>) }
     [] Space = "redef" -> \* #define / #undef histories of one name, then a use
        LET cand == {Def("A", FALSE, <<>>, <<"(", "1", ")">>), Def("A", FALSE, <<>>, <<"(", "~1", "~)">>),
                     Def("A", FALSE, <<>>, <<"(", "2", ")">>), Def("A", FALSE, <<>>, <<"(", "1">>),
@@ -740,6 +746,7 @@ ProgSpace ==
 InitOf(P, md) ==
   /\ prog = P /\ mode = md /\ inp = InpOf(P, 1) /\ inpd = InpdOf(P, 1) /\ gen = 0
   /\ mem = Mem0(MacroNamesOf(P)) /\ stack = <<Act("next", "fetch")>> /\ ret = FALSE /\ out = <<>> /\ status = "run"
+  /\ acts = {}
 
 (* ------------------------------------------------------------------------ *)
 (* Random programs for -simulate (Space = "sim").  TLC re-evaluates a LET     *)
@@ -888,9 +895,9 @@ GenStep ==
 
 Init == IF Space = "sim"
         THEN /\ prog = <<>> /\ mode = "E" /\ inp = <<>> /\ inpd = <<>> /\ mem = Mem0({}) /\ stack = <<>>
-             /\ ret = FALSE /\ out = <<>> /\ status = "gen" /\ gen = 0
+             /\ ret = FALSE /\ out = <<>> /\ status = "gen" /\ gen = 0 /\ acts = {}
         ELSE \E P \in ProgSpace : \E md \in Modes : InitOf(P, md)
-Next == Step \/ GenStep
+Next == Step \/ (GenStep /\ UNCHANGED acts)
 Spec == Init /\ [][Next]_vars
 
 (* ---------------- invariants ---------------- *)
@@ -929,7 +936,7 @@ SetToSeq(S) == IF S = {} THEN <<>> ELSE LET e == CHOOSE e \in S : TRUE IN <<e>> 
 
 CaseRec(per, mo, tag) ==
   [prog |-> prog, mode |-> mode, per |-> SetToSeq(per), model |-> mo, fired |-> SetToSeq(mem.fired), tag |-> tag,
-   err |-> mem.err, maxctx |-> mem.maxctx,
+   err |-> mem.err, maxctx |-> mem.maxctx, acts |-> SetToSeq(acts),
    np |-> LET N == SetToSeq(DOMAIN mem.pushes) IN [i \in 1..Len(N) |-> mem.pushes[N[i]]]]
 EmitCase(per, mo, tag) == IF EmitCases THEN PrintT("VCASE " \o ToJson(CaseRec(per, mo, tag))) ELSE TRUE
 
